@@ -86,6 +86,18 @@ def traverse_caught(path):
     raise ValueError('_traverse not found')
 
 
+def contains_shape(path):
+    """py_json_contains: the document is parsed unconditionally and the single `return` follows the traversal (no early exit on the raw text)"""
+    tree = ast.parse(open(path, encoding='utf-8').read())
+    for node in tree.body:
+        if isinstance(node, ast.FunctionDef) and node.name == 'py_json_contains':
+            returns = [n for n in ast.walk(node) if isinstance(n, ast.Return)]
+            first = node.body[0]
+            parses_first = isinstance(first, ast.Assign) and ast.unparse(first) == 'expr = json.loads(expr) if isinstance(expr, str) else expr'
+            return len(returns) == 1 and parses_first and isinstance(node.body[-1], ast.Return)
+    raise ValueError('py_json_contains not found')
+
+
 def probe_array_slice(repo):
     """'unclamped' (array[start:stop] as is), 'clamped' (a negative bound is taken as 0) or 'other' — probed on the real function"""
     import subprocess, sys, json
@@ -115,10 +127,11 @@ def regenerate(repo, lean_dir):
         path_re, path_flags = module_regex(os.path.join(prov, 'sqlite.py'), 'json_path_re')
         ident_re, _ = module_regex(os.path.join(repo, 'pony', 'utils', 'utils.py'), '_ident_re')
         caught = traverse_caught(os.path.join(prov, 'sqlite.py'))
+        contains_ok = contains_shape(os.path.join(prov, 'sqlite.py'))
         slice_kind, j1_neg = probe_array_slice(repo)
         if j1_neg == 'other': raise ValueError('SQLiteBuilder.eval_json_path with JSON1 writes a negative index neither as [-N] nor as [#-N]')
         if slice_kind == 'other': raise ValueError('py_array_slice is neither array[start:stop] nor its clamped variant')
-        info = {'traverse_caught': caught, 'array_slice': slice_kind, 'json1_negative_index': j1_neg, 'sqlite': sq, 'mysql': my, 'oracle': orc, 'postgres': pg, 'sqlite_shape': sq_shape, 'json_path_re': path_re,
+        info = {'py_json_contains_parses_first_single_return': contains_ok, 'traverse_caught': caught, 'array_slice': slice_kind, 'json1_negative_index': j1_neg, 'sqlite': sq, 'mysql': my, 'oracle': orc, 'postgres': pg, 'sqlite_shape': sq_shape, 'json_path_re': path_re,
                 'json_path_re_flags': path_flags, 'ident_re': ident_re}
         def lst(l): return '[' + ', '.join(lean_str(x) for x in l) + ']'
         text = '\n'.join([
@@ -136,6 +149,7 @@ def regenerate(repo, lean_dir):
             'def traverseCatchesTypeError : Bool := ' + ('true' if ('TypeError' in caught or 'Exception' in caught or 'BaseException' in caught) else 'false'),
             'def arraySliceClampsNegative : Bool := ' + ('true' if slice_kind == 'clamped' else 'false'),
             'def json1NegativeHash : Bool := ' + ('true' if j1_neg == 'hash' else 'false'),
+            'def pyJsonContainsParsesFirst : Bool := ' + ('true' if contains_ok else 'false'),
             'end PonyVerif.Gen.JsonLits', ''])
         ok, err = True, None
     except Exception as e:
